@@ -30,6 +30,10 @@ R4 (K2/K10) tags: remove_tags is called only when the branch supports tags and k
 R5 (K3 lock discipline) when some delete_tag implementation propagates to the master through get_master_branch() (a fresh
    object taking its own write lock), uncommit() has released its own write lock on the master on every path before it
    calls remove_tags.
+R6 (third round) every delete_tag that repeats the deletion in the master does so under suppress(NoSuchTag) / a handler for
+   it: a tag the master lacks does not stop the local deletion half way through uncommit.
+R7 with local=True (only the bound branch loses the revisions) remove_tags must not be reachable while a delete_tag
+   implementation writes the master's tags (known finding on this tree).
 Does not decide: that the reconstructed pending merges equal the pre-commit ones for arbitrary histories.
 """
 
@@ -157,7 +161,37 @@ def run(ctx):
     else:
         ctx.info("R5-master-unlocked-for-tags", where, "no delete_tag implementation reaches the master branch; rule vacuous on this tree")
 
+    # ---- R7: a local-only uncommit does not write the master's tags --------------------------------------------------
+    if reaches_master:
+        params = [a.arg for a in fn.args.args + fn.args.kwonlyargs]
+        ctx.require("local" in params, f"{where}: parameter `local` not found")
+        g7 = g.assume({"local": True, "not local": False})
+        hit7 = sorted(set(rt) & g7.reachable_from_entry())
+        ctx.check("R7-local-leaves-master-tags", where, not hit7, f"with local=True (only the local branch loses the revisions) remove_tags is not reached, or no delete_tag writes the master ({reaches_master[0]} does)", construct="remove_tags(branch, ...) reachable with local=True", message=f"uncommit(local=True) removes the revisions from the bound branch only, but still calls remove_tags, and {reaches_master[0]} deletes each tag in the master as well: the master keeps the revision and loses its tag — a tag that does not point at a removed revision is dropped")
+    # ---- R6: a tag the master does not have does not stop the local deletion ----------------------------------------
+    for site in reaches_master:
+        rel_, q_ = site.split(":", 1)
+        f_ = repo.func(rel_, q_)
+        parents = {}
+        for n in ast.walk(f_):
+            for ch in ast.iter_child_nodes(n):
+                parents[id(ch)] = n
+        nested = [c for c in calls_in(f_) if call_attr(c) == "delete_tag" and (call_recv(c) or "").endswith(".tags")]
+        ctx.require(bool(nested), f"{site}: propagation of the deletion to the master not found")
+        for c in nested:
+            tolerant = False
+            cur = c
+            while id(cur) in parents:
+                par = parents[id(cur)]
+                if isinstance(par, ast.With) and any(isinstance(it.context_expr, ast.Call) and norm(it.context_expr.func).split(".")[-1] == "suppress" and any("NoSuchTag" in norm(a) or norm(a).split(".")[-1] in ("Exception", "BzrError") for a in it.context_expr.args) for it in par.items):
+                    tolerant = True
+                if isinstance(par, ast.Try) and any(cur is x for x in par.body) and any((h.type is None or "NoSuchTag" in norm(h.type) or norm(h.type).split(".")[-1] in ("Exception", "BzrError")) and not any(isinstance(r_, ast.Raise) for b in h.body for r_ in ast.walk(b)) for h in par.handlers):
+                    tolerant = True
+                cur = par
+            ctx.check("R6-master-missing-tag-tolerated", site, tolerant, "the deletion on the master tolerates NoSuchTag (the master may never have had the tag, or lost it: deletions on the master do not reach checkouts)", construct=f"L{c.lineno}:{norm(c)[:60]}", message=f"{q_} lets NoSuchTag from the master's delete_tag escape: in a bound branch whose master lacks one of the tags, uncommit raises after tip, revno and parents were rewound and the tags on the removed revisions stay")
+
 MUTANTS = [
+    Mutant("master's missing tag aborts the local deletion", "breezy/bzr/tag.py", "                with contextlib.suppress(errors.NoSuchTag):\n                    master.tags.delete_tag(tag_name)\n", "                master.tags.delete_tag(tag_name)\n", expect="R6-master-missing-tag-tolerated"),
     Mutant("master stays locked while tags are removed", UC, "                    unlockable.remove(master)\n                    master.unlock()\n", "                    pass\n", expect="R5-master-unlocked-for-tags"),
     Mutant("uncommit reverts the tree", UC, "            if tree is not None:\n                parents.extend(reversed(pending_merges))\n                tree.set_parent_ids(parents)\n", "            if tree is not None:\n                parents.extend(reversed(pending_merges))\n                tree.set_parent_ids(parents)\n                tree.revert()\n", expect="R1-tree-effects"),
     Mutant("master/local order swapped", UC, "            if master is not None:\n                master.set_last_revision_info(new_revno, new_revision_id)\n            branch.set_last_revision_info(new_revno, new_revision_id)\n", "            branch.set_last_revision_info(new_revno, new_revision_id)\n            if master is not None:\n                master.set_last_revision_info(new_revno, new_revision_id)\n", expect="R2-master-first"),
